@@ -396,10 +396,24 @@ def mutate(rng, root, layout, info, klass):
         m = rng.choice(sorted(layout['mans']))
         ents = layout['mans'][m]['entries']
         name = 'twin-%d.tar.gz' % rng.randrange(100)
+        bits = {'SHA256': 256, 'SHA512': 512, 'BLAKE2B': 512, 'MD5': 128}
+        shared = {h: '%0*x' % (bits[h] // 4, rng.getrandbits(bits[h])) for h in bits}
+        mixed = rng.random() < 0.5
         for k in range(rng.choice([2, 2, 3])):
+            if mixed:
+                # twins left behind by a hash migration: different hash sets, the
+                # hashes they share mostly agree, sizes mostly equal
+                hs = rng.choice([['SHA256'], ['SHA512'], ['SHA256', 'SHA512'],
+                                 ['BLAKE2B', 'SHA512'], ['MD5', 'SHA256', 'SHA512']])
+                sums = {h: (shared[h] if rng.random() < 0.8 else
+                            '%0*x' % (bits[h] // 4, rng.getrandbits(bits[h])))
+                        for h in hs}
+                size = 100 + (rng.randrange(3) if rng.random() < 0.2 else 0)
+            else:
+                sums = {'SHA256': '%064x' % rng.getrandbits(256)}
+                size = 100 + rng.randrange(3)
             ents.insert(rng.randrange(len(ents) + 1),
-                        {'tag': 'DIST', 'path': name, 'size': 100 + rng.randrange(3),
-                         'sums': {'SHA256': '%064x' % rng.getrandbits(256)}})
+                        {'tag': 'DIST', 'path': name, 'size': size, 'sums': sums})
         rec['path'] = name
     elif klass == 'm-manifest-data-twin':
         # a sub-Manifest additionally listed by a (correct) DATA/MISC entry next to its
@@ -506,7 +520,17 @@ def mutate(rng, root, layout, info, klass):
     elif klass == 'm-dup-ignore':
         cands = [(m, e) for m, md in layout['mans'].items()
                  for e in md['entries'] if e['tag'] == 'IGNORE']
-        if cands:
+        subs = sorted(m for m in layout['mans'] if os.path.dirname(m)
+                      and not any(c.startswith('.') for c in m.split('/')))
+        if subs and rng.random() < 0.5:
+            # the same full path IGNOREd on two levels of the tree (harmless as well)
+            m2 = rng.choice(subs)
+            name = 'dup-ignored-%d' % rng.randrange(100)
+            layout['mans'][m2]['entries'].append({'tag': 'IGNORE', 'path': name})
+            tops = layout['mans'][layout['top']]['entries']
+            tops.insert(rng.randrange(len(tops) + 1),
+                        {'tag': 'IGNORE', 'path': os.path.dirname(m2) + '/' + name})
+        elif cands:
             m, e = rng.choice(cands)
             layout['mans'][m]['entries'].append(dict(e))
         else:
